@@ -273,19 +273,22 @@ func (a *apiRunner) list(b string, hasP bool, pfx string, hasD bool, d string) {
 
 // apiSequences runs random Backend-interface histories on one backend kind.
 func apiSequences(c *Ctx, kind string, nSeq, maxLen int) {
-	model := map[string]string{"bolt": "bolt", "fsM-mem": "fsM", "fsM-dir": "fsM"}[kind]
+	model := map[string]string{"bolt": "bolt", "fsM-mem": "fsM", "fsM-dir": "fsM", "fsS-mem": "fsS", "fsS-dir": "fsS"}[kind]
 	if model == "" {
 		return
 	}
 	buckets := []string{"bk1", "bk2", "bk3", "bk1", "bk2", "_meta", ""}
 	keys := []string{"a", "a/b", "a/b/c", "ab", "a.b", "b", "b/", "a//b", "bucket/bk1", "bucket/bk2", "é", ""}
-	isFs := model == "fsM"
+	isFs := model == "fsM" || model == "fsS"
 	if isFs {
 		// Model/FsBackend speaks about bucket names that pass the create-bucket rule (the front end
 		// admits no others); keys: conflicting ones ("a" against "a/b/c"), keys that are no clean
 		// relative paths, and ordinary ones
 		buckets = []string{"bk1", "bk2", "bk3", "bk1", "bk2", "nosuch"}
 		keys = []string{"a", "a/b", "a/b/c", "ab", "a.b", "b", "b/", "a//b", "../bk2/a", "./a", "a/./b", "a/..", "..", ".", "é", "", "d/e/f/g", "d/e"}
+	}
+	if model == "fsS" {
+		buckets = []string{impl.SingleBucketName, impl.SingleBucketName, impl.SingleBucketName, "other", "bk1"}
 	}
 	prefixes := []string{"", "a", "a/", "a/b", "a/b/", "b", "bucket/", "c", "a.", "/", "d/", "d/e", "d/e/", "d/e/f/", "a/b/c/", "a//", "./", "a/./", "../", "d/x/"}
 	metas := []map[string]string{nil, {"Content-Type": "text/plain"}, {"X-Amz-Meta-A": "1", "Content-Type": "x/y"}, {"X-Amz-Meta-B": ""}, {"X-Amz-Acl": "private"}}
@@ -296,7 +299,11 @@ func apiSequences(c *Ctx, kind string, nSeq, maxLen int) {
 			return
 		}
 		a := &apiRunner{c: c, inst: inst, kind: kind}
-		a.tell("api.reset " + model)
+		if model == "fsS" {
+			a.tell("api.reset fsS " + hx(impl.SingleBucketName))
+		} else {
+			a.tell("api.reset " + model)
+		}
 		pickB := func() string { return buckets[c.Rng.Intn(len(buckets))] }
 		pickK := func() string { return keys[c.Rng.Intn(len(keys))] }
 		n := 1 + c.Rng.Intn(maxLen)
